@@ -312,7 +312,8 @@ Lemma substep_cases :
     s_tree s' = s_tree s /\ s_stopped s' = s_stopped s /\
     ( (* the save failed *)
       (exists cls r, o = OEnded false false (Some cls) r /\ s' = ended (v_owner v) s true (s_fs s)
-                     /\ (load (s_fs s) = v_load0 v \/ (v_todo v = [SRemBak] /\ load (s_fs s) = Some (v_snap v))))
+                     /\ (load (s_fs s) = v_load0 v \/ (v_todo v = [SRemBak] /\ load (s_fs s) = Some (v_snap v)))
+                     /\ (f = FIO \/ s_dirty s = true))
       \/ (* the save returned *)
       (o = OEnded false false None false /\ f = FNone /\
        (exists fs', s' = ended (v_owner v) s (s_dirty s) fs' /\ (s_dirty s = false -> load fs' = Some (s_tree s)))
@@ -329,7 +330,7 @@ Proof.
     unfold sub_step.
     destruct (raises_good c fl v FOSError s G (sv_inv_idx s v Hinv) (or_introl eq_refl)) as [H1 [r H2]].
     rewrite H1, H2. simpl. split; auto. split; auto. left.
-    exists FOSError, r. split; auto. split; auto. apply sv_inv_load; assumption. }
+    exists FOSError, r. split; auto. split; auto. split; auto. apply sv_inv_load; assumption. }
   unfold sub_step.
   destruct Hinv as [Htodo Hidx Hload Hex Hcons | Htodo Hidx Hload Hex Hmain Hsnap
                     | Htodo Hidx Hload Hsnap | Htodo Hidx Hex Hmain Hsnap]; rewrite Htodo.
@@ -357,7 +358,10 @@ Proof.
         assert (Hi : 1 <= v_idx v) by lia.
         destruct (raises_good c fl v FRuntimeError s G Hi (or_intror eq_refl)) as [H1 [r H2]].
         rewrite H1, H2. simpl. split; auto. split; auto. left.
-        exists FRuntimeError, r. auto.
+        exists FRuntimeError, r. repeat split; auto. right.
+        destruct (s_dirty s) eqn:Ed; auto.
+        destruct (ser_step_progress pol (s_tree s) ss Hpol (Hcons eq_refl)) as [ph' [E1 _]].
+        rewrite Estep in E1. discriminate.
     + (* flush, fsync, close *)
       simpl. rewrite Hidx. destruct (v_exists v) eqn:Eex; simpl.
       * split; auto. split; auto. right; right. split; auto. split; auto.
@@ -393,3 +397,382 @@ Proof.
     + eexists. split; [reflexivity|]. simpl. intros Hd. unfold load; simpl. rewrite Hmain, Hsnap; auto.
     + unfold sv_left. rewrite Htodo. reflexivity.
 Qed.
+
+(* ------------------------------------------------------------------ the other events *)
+
+Lemma begin_cases :
+  forall c fl o denied s,
+    good_facts c -> s_saving s = None ->
+    let s' := fst (begin_save c fl o denied s) in
+    let out := snd (begin_save c fl o denied s) in
+    s_tree s' = s_tree s /\ s_stopped s' = s_stopped s /\ s_fs s' = s_fs s /\
+    ( (exists sk dn, out = OEnded sk dn None false /\ s' = ended o s (s_dirty s) (s_fs s)
+                     /\ (s_dirty s = false \/ denied = true))
+      \/ (out = OProgress /\ s_dirty s = true /\ denied = false /\
+          exists v, s_saving s' = Some v /\ v_owner v = o /\ s_dirty s' = false /\ s_armed s' = s_armed s
+                    /\ sv_inv s' v /\ v_load0 v = load (s_fs s)
+                    /\ sv_left v (s_tree s) = save_len (s_tree s) (is_some (f_main (s_fs s)))) ).
+Proof.
+  intros c fl o denied s G Hidle. cbv zeta. unfold begin_save.
+  destruct (s_dirty s) eqn:Ed; simpl.
+  2:{ rewrite return_good; auto. simpl. repeat split; auto. left. exists true, false. rewrite Ed. auto. }
+  destruct denied; simpl.
+  { rewrite return_good; auto. simpl. repeat split; auto. left. exists false, true. rewrite Ed. auto. }
+  rewrite (gf_order c G). simpl. repeat split; auto. right. repeat split; auto.
+  eexists. split; [reflexivity|]. simpl. repeat split; auto.
+  - apply InvSer; simpl; auto.
+  - unfold sv_left, save_len, tail_len; simpl. destruct (is_some (f_main (s_fs s))); lia.
+Qed.
+
+Lemma sv_inv_dirty :
+  forall s s' v, sv_inv s v -> s_fs s' = s_fs s -> s_dirty s' = true -> sv_inv s' v.
+Proof.
+  intros s s' v H Hfs Hd.
+  destruct H; [apply InvSer | apply InvRenBak | apply InvRenMain | apply InvRemBak];
+    rewrite ?Hfs; auto; intro Hx; rewrite Hd in Hx; discriminate.
+Qed.
+
+Lemma sched_end :
+  forall s v d f, sched_inv s -> s_saving s = Some v -> sched_inv (ended (v_owner v) s d f).
+Proof.
+  intros s v d f H Hv. unfold sched_inv in *. simpl.
+  destruct (s_stopped s).
+  - destruct H as [Ha Ho]. rewrite (Ho v Hv). simpl. split; auto. intros v0 Hx; discriminate.
+  - destruct H as [[_ Hn] | [_ [v0 [Hv0 Ho]]]].
+    + rewrite Hn in Hv; discriminate.
+    + rewrite Hv in Hv0. inversion Hv0. subst v0. rewrite Ho. simpl. left; auto.
+Qed.
+
+Lemma sched_progress :
+  forall s s' v v', sched_inv s -> s_saving s = Some v -> s_saving s' = Some v' -> v_owner v' = v_owner v ->
+                    s_armed s' = s_armed s -> s_stopped s' = s_stopped s -> sched_inv s'.
+Proof.
+  intros s s' v v' H Hv Hv' Ho Ha Hs. unfold sched_inv in *. rewrite Hs, Ha.
+  destruct (s_stopped s).
+  - destruct H as [H1 H2]. split; auto. intros v0 Hx. rewrite Hv' in Hx. inversion Hx. subst v0.
+    rewrite Ho. auto.
+  - destruct H as [[_ Hn] | [H1 [v0 [Hv0 Ho0]]]].
+    + rewrite Hn in Hv; discriminate.
+    + right. split; auto. exists v'. split; auto. rewrite Ho. rewrite Hv in Hv0. inversion Hv0. subst. auto.
+Qed.
+
+Lemma step_inv :
+  forall c fl pol s e, good_facts c -> policy_ok pol -> Inv s -> Inv (fst (step c fl pol s e)).
+Proof.
+  intros c fl pol s e G Hpol Hinv. pose proof Hinv as [Hidle Hsv Hsched].
+  destruct e as [denied | f | m | denied]; simpl.
+  - (* fire *)
+    destruct (s_saving s) as [v|] eqn:Esav; [simpl; exact Hinv|].
+    destruct (s_armed s) eqn:Earm; [|simpl; exact Hinv].
+    assert (Hst : s_stopped s = false).
+    { unfold sched_inv in Hsched. destruct (s_stopped s); auto. destruct Hsched as [H _]. congruence. }
+    set (s1 := mkSt (s_tree s) (s_dirty s) (s_fs s) false (s_stopped s) None).
+    destruct (begin_cases c fl OSched denied s1 G eq_refl) as [Ht [Hs [Hf Hc]]].
+    destruct Hc as [[sk [dn [_ [Hs' _]]]] | [_ [_ [_ [v [Hv [Ho [Hd [Ha [Hi _]]]]]]]]]].
+    + rewrite Hs'. unfold ended; simpl. constructor; simpl; auto; try (intros; discriminate).
+      unfold sched_inv; simpl. rewrite Hst. left; auto.
+    + constructor.
+      * rewrite Hv. discriminate.
+      * intros v0 Hv0. rewrite Hv in Hv0. inversion Hv0. subst v0. exact Hi.
+      * unfold sched_inv. rewrite Hs. simpl. rewrite Hst. right. rewrite Ha. simpl. split; auto.
+        exists v; auto.
+  - (* sub-step *)
+    destruct (s_saving s) as [v|] eqn:Esav; [|simpl; exact Hinv].
+    pose proof (substep_cases c fl pol s v f G Hpol (Hsv v eq_refl)) as H. cbv zeta in H.
+    destruct H as [Ht [Hs Hc]].
+    destruct Hc as [[cls [r [_ [Hs' _]]]] | [[_ [_ [[fs' [Hs' Hl]] _]]] | [_ [_ [v' [Hv' [Ho [Hd [Ha [Hi _]]]]]]]]]].
+    + rewrite Hs'. constructor; simpl; auto; try discriminate. apply sched_end; auto.
+    + rewrite Hs'. constructor; simpl; auto; try discriminate. apply sched_end; auto.
+    + constructor.
+      * rewrite Hv'. discriminate.
+      * intros v0 Hv0. rewrite Hv' in Hv0. inversion Hv0. subst v0. exact Hi.
+      * eapply sched_progress; eauto.
+  - (* message *)
+    destruct (apply_msg m (s_tree s)) as [t a] eqn:Em. simpl.
+    destruct a.
+    + rewrite orb_true_r. constructor; simpl.
+      * intros _ Hx; discriminate.
+      * intros v Hv. apply (sv_inv_dirty s); auto.
+      * exact Hsched.
+    + pose proof (apply_msg_silent m (s_tree s)) as Hq. rewrite Em in Hq. simpl in Hq.
+      rewrite Hq by reflexivity. rewrite orb_false_r.
+      destruct s; simpl in *. constructor; auto.
+  - (* stop *)
+    destruct (s_saving s) as [v|] eqn:Esav; [simpl; exact Hinv|].
+    destruct (s_stopped s) eqn:Est; [simpl; exact Hinv|].
+    pose proof (gf_sched c G fl) as Hg. unfold good_sched in Hg.
+    repeat (apply andb_true_iff in Hg; let H' := fresh "Hg" in destruct Hg as [Hg H']).
+    rewrite Hg2, Hg1, Hg0. simpl.
+    set (s1 := mkSt (s_tree s) (s_dirty s) (s_fs s) false true None).
+    destruct (begin_cases c fl OFinal denied s1 G eq_refl) as [Ht [Hs [Hf Hc]]].
+    destruct Hc as [[sk [dn [_ [Hs' _]]]] | [_ [_ [_ [v [Hv [Ho [Hd [Ha [Hi _]]]]]]]]]].
+    + rewrite Hs'. unfold ended; simpl. constructor; simpl; auto; try (intros; discriminate).
+      unfold sched_inv; simpl. split; auto. intros v Hx; discriminate.
+    + constructor.
+      * rewrite Hv. discriminate.
+      * intros v0 Hv0. rewrite Hv in Hv0. inversion Hv0. subst v0. exact Hi.
+      * unfold sched_inv. rewrite Hs. simpl. rewrite Ha. simpl. split; auto.
+        intros v0 Hv0. rewrite Hv in Hv0. inversion Hv0. subst v0. exact Ho.
+Qed.
+
+Lemma init_inv : forall t f, Inv (init t f).
+Proof.
+  intros t f. constructor; simpl.
+  - intros _ H; discriminate.
+  - intros v H; discriminate.
+  - unfold sched_inv; simpl. left; auto.
+Qed.
+
+Lemma run_app : forall c fl pol evs1 evs2 s, run c fl pol s (evs1 ++ evs2) = run c fl pol (run c fl pol s evs1) evs2.
+Proof. intros. unfold run. apply fold_left_app. Qed.
+
+Lemma run_inv :
+  forall c fl pol evs s, good_facts c -> policy_ok pol -> Inv s -> Inv (run c fl pol s evs).
+Proof.
+  intros c fl pol evs. induction evs as [|e evs IH]; intros s G Hpol Hi; simpl; auto.
+  apply IH; auto. apply step_inv; auto.
+Qed.
+
+Lemma reachable_inv :
+  forall c fl pol s, good_facts c -> policy_ok pol -> reachable c fl pol s -> Inv s.
+Proof.
+  intros c fl pol s G Hpol [t0 [f0 [evs Hs]]]. subst s. apply run_inv; auto. apply init_inv.
+Qed.
+
+(* ------------------------------------------------------------------ the theorems, for every good shape *)
+
+Local Arguments sub_step : simpl never.
+
+Section Theorems.
+  Variable c : cfg.
+  Variable fl : flavour.
+  Variable pol : policy.
+  Hypothesis Hgood : good c = true.
+  Hypothesis Hpol : policy_ok pol.
+
+  Let G : good_facts c := good_gives c Hgood.
+
+  Theorem no_lost_update_gen :
+    forall s, reachable c fl pol s ->
+      s_saving s = None -> s_dirty s = false -> load (s_fs s) = Some (s_tree s).
+  Proof. intros s Hr. apply (inv_idle s (reachable_inv c fl pol s G Hpol Hr)). Qed.
+
+  Theorem schedule_survives_gen :
+    forall s, reachable c fl pol s ->
+      if s_stopped s
+      then s_armed s = false /\ (forall v, s_saving s = Some v -> v_owner v = OFinal)
+      else (s_armed s = true /\ s_saving s = None)
+           \/ (s_armed s = false /\ exists v, s_saving s = Some v /\ v_owner v = OSched).
+  Proof. intros s Hr. apply (inv_sched s (reachable_inv c fl pol s G Hpol Hr)). Qed.
+
+  (* an event that ends a save leaves the machine idle *)
+  Lemma ended_idle :
+    forall s e sk dn fc r, Inv s -> snd (step c fl pol s e) = OEnded sk dn fc r ->
+      s_saving (fst (step c fl pol s e)) = None.
+  Proof.
+    intros s e sk dn fc r Hinv. pose proof Hinv as [Hidle Hsv Hsched].
+    destruct e as [denied | f | m | denied]; simpl.
+    - destruct (s_saving s) as [v|] eqn:Esav; [simpl; discriminate|].
+      destruct (s_armed s); [|simpl; discriminate].
+      set (s1 := mkSt (s_tree s) (s_dirty s) (s_fs s) false (s_stopped s) None).
+      destruct (begin_cases c fl OSched denied s1 G eq_refl) as [_ [_ [_ Hc]]].
+      destruct Hc as [[sk' [dn' [_ [Hs' _]]]] | [Ho _]].
+      + rewrite Hs'. reflexivity.
+      + rewrite Ho. discriminate.
+    - destruct (s_saving s) as [v|] eqn:Esav; [|simpl; discriminate].
+      pose proof (substep_cases c fl pol s v f G Hpol (Hsv v eq_refl)) as H. cbv zeta in H.
+      destruct H as [_ [_ Hc]].
+      destruct Hc as [[cls [r' [_ [Hs' _]]]] | [[_ [_ [[fs' [Hs' _]] _]]] | [Ho _]]].
+      + rewrite Hs'. reflexivity.
+      + rewrite Hs'. reflexivity.
+      + rewrite Ho. discriminate.
+    - destruct (apply_msg m (s_tree s)). simpl. discriminate.
+    - destruct (s_saving s) as [v|] eqn:Esav; [simpl; discriminate|].
+      destruct (s_stopped s); [simpl; discriminate|].
+      destruct ((negb (sc_stop_cancels (sched_of c fl)) || sc_cancel_ok (sched_of c fl)) && sc_stop_saves (sched_of c fl));
+        [|simpl; discriminate].
+      match goal with |- context [begin_save c fl OFinal denied ?x] => set (s1 := x) end.
+      destruct (begin_cases c fl OFinal denied s1 G eq_refl) as [_ [_ [_ Hc]]].
+      destruct Hc as [[sk' [dn' [_ [Hs' _]]]] | [Ho _]].
+      + rewrite Hs'. reflexivity.
+      + rewrite Ho. discriminate.
+  Qed.
+
+  Theorem every_fire_rearms_gen :
+    forall s e sk dn fc r, reachable c fl pol s ->
+      snd (step c fl pol s e) = OEnded sk dn fc r ->
+      s_stopped (fst (step c fl pol s e)) = false ->
+      s_armed (fst (step c fl pol s e)) = true /\ s_saving (fst (step c fl pol s e)) = None.
+  Proof.
+    intros s e sk dn fc r Hr Ho Hst.
+    pose proof (reachable_inv c fl pol s G Hpol Hr) as Hinv.
+    pose proof (ended_idle s e sk dn fc r Hinv Ho) as Hidle.
+    pose proof (inv_sched _ (step_inv c fl pol s e G Hpol Hinv)) as Hs.
+    unfold sched_inv in Hs. rewrite Hst in Hs.
+    destruct Hs as [[Ha _] | [_ [v [Hv _]]]]; auto.
+    rewrite Hidle in Hv. discriminate.
+  Qed.
+
+  Theorem failed_save_gen :
+    forall s e cls r, reachable c fl pol s ->
+      snd (step c fl pol s e) = OEnded false false (Some cls) r ->
+      let s' := fst (step c fl pol s e) in
+      s_dirty s' = true /\ s_fs s' = s_fs s /\ s_tree s' = s_tree s /\ s_saving s' = None /\
+      exists v, s_saving s = Some v /\
+                (load (s_fs s') = v_load0 v \/ (v_todo v = [SRemBak] /\ load (s_fs s') = Some (v_snap v))).
+  Proof.
+    intros s e cls r Hr. cbv zeta.
+    pose proof (reachable_inv c fl pol s G Hpol Hr) as Hinv. pose proof Hinv as [Hidle Hsv Hsched].
+    destruct e as [denied | f | m | denied]; simpl.
+    - destruct (s_saving s) as [v|] eqn:Esav; [simpl; discriminate|].
+      destruct (s_armed s); [|simpl; discriminate].
+      set (s1 := mkSt (s_tree s) (s_dirty s) (s_fs s) false (s_stopped s) None).
+      destruct (begin_cases c fl OSched denied s1 G eq_refl) as [_ [_ [_ Hc]]].
+      destruct Hc as [[sk' [dn' [Ho _]]] | [Ho _]]; rewrite Ho; discriminate.
+    - destruct (s_saving s) as [v|] eqn:Esav; [|simpl; discriminate].
+      pose proof (substep_cases c fl pol s v f G Hpol (Hsv v eq_refl)) as H. cbv zeta in H.
+      destruct H as [_ [_ Hc]].
+      destruct Hc as [[cls' [r' [_ [Hs' [Hl _]]]]] | [[Ho _] | [Ho _]]].
+      + intros _. rewrite Hs'. simpl. repeat split; auto. exists v. split; auto.
+      + rewrite Ho. discriminate.
+      + rewrite Ho. discriminate.
+    - destruct (apply_msg m (s_tree s)). simpl. discriminate.
+    - destruct (s_saving s) as [v|] eqn:Esav; [simpl; discriminate|].
+      destruct (s_stopped s); [simpl; discriminate|].
+      destruct ((negb (sc_stop_cancels (sched_of c fl)) || sc_cancel_ok (sched_of c fl)) && sc_stop_saves (sched_of c fl));
+        [|simpl; discriminate].
+      match goal with |- context [begin_save c fl OFinal denied ?x] => set (s1 := x) end.
+      destruct (begin_cases c fl OFinal denied s1 G eq_refl) as [_ [_ [_ Hc]]].
+      destruct Hc as [[sk' [dn' [Ho _]]] | [Ho _]]; rewrite Ho; discriminate.
+  Qed.
+
+  (* the ghost v_load0 is what a load returned when the save began ... *)
+  Theorem load0_at_begin_gen :
+    forall s e v, reachable c fl pol s -> s_saving s = None ->
+      s_saving (fst (step c fl pol s e)) = Some v -> v_load0 v = load (s_fs s).
+  Proof.
+    intros s e v Hr Hidle.
+    destruct e as [denied | f | m | denied]; simpl; rewrite ?Hidle.
+    - destruct (s_armed s); [|simpl; rewrite Hidle; discriminate].
+      set (s1 := mkSt (s_tree s) (s_dirty s) (s_fs s) false (s_stopped s) None).
+      destruct (begin_cases c fl OSched denied s1 G eq_refl) as [_ [_ [_ Hc]]].
+      destruct Hc as [[sk' [dn' [_ [Hs' _]]]] | [_ [_ [_ [v' [Hv [_ [_ [_ [_ [Hl _]]]]]]]]]]].
+      + rewrite Hs'. simpl. discriminate.
+      + rewrite Hv. intro H; inversion H; subst. exact Hl.
+    - simpl. rewrite Hidle. discriminate.
+    - destruct (apply_msg m (s_tree s)). simpl. rewrite ?Hidle. discriminate.
+    - destruct (s_stopped s); [simpl; rewrite Hidle; discriminate|].
+      destruct ((negb (sc_stop_cancels (sched_of c fl)) || sc_cancel_ok (sched_of c fl)) && sc_stop_saves (sched_of c fl));
+        [|simpl; discriminate].
+      match goal with |- context [begin_save c fl OFinal denied ?x] => set (s1 := x) end.
+      destruct (begin_cases c fl OFinal denied s1 G eq_refl) as [_ [_ [_ Hc]]].
+      destruct Hc as [[sk' [dn' [_ [Hs' _]]]] | [_ [_ [_ [v' [Hv [_ [_ [_ [_ [Hl _]]]]]]]]]]].
+      + rewrite Hs'. simpl. discriminate.
+      + rewrite Hv. intro H; inversion H; subst. exact Hl.
+  Qed.
+
+  (* ... and never changes while the save runs *)
+  Theorem load0_kept_gen :
+    forall s e v v', reachable c fl pol s -> s_saving s = Some v ->
+      s_saving (fst (step c fl pol s e)) = Some v' -> v_load0 v' = v_load0 v.
+  Proof.
+    intros s e v v' Hr Hv.
+    pose proof (reachable_inv c fl pol s G Hpol Hr) as Hinv. pose proof Hinv as [_ Hsv _].
+    destruct e as [denied | f | m | denied]; simpl; rewrite ?Hv; simpl.
+    - rewrite Hv. intro H; inversion H; reflexivity.
+    - pose proof (substep_cases c fl pol s v f G Hpol (Hsv v Hv)) as H. cbv zeta in H.
+      destruct H as [_ [_ Hc]].
+      destruct Hc as [[cls' [r' [_ [Hs' _]]]] | [[_ [_ [[fs' [Hs' _]] _]]] | [_ [_ [v1 [Hv1 [_ [_ [_ [_ [Hl _]]]]]]]]]]].
+      + rewrite Hs'. simpl. discriminate.
+      + rewrite Hs'. simpl. discriminate.
+      + rewrite Hv1. intro H; inversion H; subst. exact Hl.
+    - destruct (apply_msg m (s_tree s)). simpl. rewrite ?Hv. intro H; inversion H; reflexivity.
+    - rewrite Hv. intro H; inversion H; reflexivity.
+  Qed.
+
+  (* an undisturbed fault-free save runs to its end *)
+  Lemma quiet_run :
+    forall n s v, Inv s -> s_saving s = Some v -> s_dirty s = false -> sv_left v (s_tree s) = n ->
+      exists fs', run c fl pol s (repeat (EStep FNone) n) = ended (v_owner v) s false fs'
+                  /\ load fs' = Some (s_tree s).
+  Proof.
+    induction n as [|n IH]; intros s v Hinv Hv Hd Hn.
+    - pose proof (substep_cases c fl pol s v FNone G Hpol (inv_sv s Hinv v Hv)) as H. cbv zeta in H.
+      destruct H as [_ [_ Hc]].
+      destruct Hc as [[cls' [r' [_ [_ [_ [Hx | Hx]]]]]] | [[_ [_ [_ Hx]]] | [_ [_ [v1 [_ [_ [_ [_ [_ [_ Hx]]]]]]]]]]].
+      + discriminate.
+      + congruence.
+      + congruence.
+      + specialize (Hx Hd). congruence.
+    - change (repeat (EStep FNone) (S n)) with (EStep FNone :: repeat (EStep FNone) n).
+      change (run c fl pol s (EStep FNone :: ?l)) with (run c fl pol (fst (step c fl pol s (EStep FNone))) l).
+      assert (Hstep : step c fl pol s (EStep FNone) = sub_step c fl pol v FNone s) by (simpl; rewrite Hv; reflexivity).
+      rewrite Hstep.
+      pose proof (substep_cases c fl pol s v FNone G Hpol (inv_sv s Hinv v Hv)) as H. cbv zeta in H.
+      pose proof (step_inv c fl pol s (EStep FNone) G Hpol Hinv) as Hinv'. rewrite Hstep in Hinv'.
+      destruct H as [Ht [Hs Hc]].
+      destruct Hc as [[cls' [r' [_ [_ [_ [Hx | Hx]]]]]] | [[_ [_ [[fs' [Hs' Hl]] Hx]]] | [_ [_ [v1 [Hv1 [Ho [Hd1 [Ha [_ [_ Hx]]]]]]]]]]].
+      + discriminate.
+      + congruence.
+      + assert (n = 0) by congruence. subst n. exists fs'. rewrite Hs', Hd. simpl. auto.
+      + specialize (Hx Hd).
+        destruct (IH _ v1 Hinv' Hv1) as [fs' [Hr Hl]]; [congruence | congruence |].
+        exists fs'. rewrite Hr. unfold ended. rewrite Ht, Hs, Ha, Ho. split; auto. rewrite <- Ht. exact Hl.
+  Qed.
+
+  Lemma idle_steps : forall n s, s_saving s = None -> run c fl pol s (repeat (EStep FNone) n) = s.
+  Proof. induction n; intros s H; simpl; auto. rewrite H. simpl. apply IHn; auto. Qed.
+
+  Theorem next_success_gen :
+    forall s, reachable c fl pol s ->
+      s_saving s = None -> s_armed s = true -> s_dirty s = true ->
+      let s' := run c fl pol s (EFire false :: repeat (EStep FNone) (save_len (s_tree s) (is_some (f_main (s_fs s))))) in
+      s_saving s' = None /\ s_dirty s' = false /\ load (s_fs s') = Some (s_tree s)
+      /\ s_tree s' = s_tree s /\ s_armed s' = true /\ s_stopped s' = s_stopped s.
+  Proof.
+    intros s Hr Hidle Harm Hd. cbv zeta.
+    pose proof (reachable_inv c fl pol s G Hpol Hr) as Hinv.
+    pose proof (step_inv c fl pol s (EFire false) G Hpol Hinv) as Hinv1.
+    change (run c fl pol s (EFire false :: ?l)) with (run c fl pol (fst (step c fl pol s (EFire false))) l).
+    revert Hinv1. simpl. rewrite Hidle, Harm.
+    set (s1 := mkSt (s_tree s) (s_dirty s) (s_fs s) false (s_stopped s) None).
+    destruct (begin_cases c fl OSched false s1 G eq_refl) as [Ht [Hs [Hf Hc]]].
+    destruct Hc as [[sk [dn [_ [_ [Hx | Hx]]]]] | [_ [_ [_ [v [Hv [Ho [Hd1 [Ha [_ [_ Hlen]]]]]]]]]]].
+    - simpl in Hx. congruence.
+    - discriminate.
+    - intros Hinv1. subst s1. simpl in Hlen, Ht, Hs, Hf.
+      assert (Hn : sv_left v (s_tree (fst (begin_save c fl OSched false (mkSt (s_tree s) (s_dirty s) (s_fs s) false (s_stopped s) None)))) = save_len (s_tree s) (is_some (f_main (s_fs s))))
+        by (rewrite Ht; exact Hlen).
+      destruct (quiet_run _ _ v Hinv1 Hv Hd1 Hn) as [fs' [Hrun Hl]].
+      rewrite Hrun. unfold ended. simpl. rewrite Ho. simpl. rewrite Ht in Hl. rewrite Ht, Hs. auto.
+  Qed.
+
+  Theorem stop_persists_gen :
+    forall s, reachable c fl pol s ->
+      s_saving s = None -> s_stopped s = false ->
+      let s' := run c fl pol s (EStop false :: repeat (EStep FNone) (save_len (s_tree s) (is_some (f_main (s_fs s))))) in
+      s_saving s' = None /\ load (s_fs s') = Some (s_tree s) /\ s_tree s' = s_tree s
+      /\ s_armed s' = false /\ s_stopped s' = true.
+  Proof.
+    intros s Hr Hidle Hst. cbv zeta.
+    pose proof (reachable_inv c fl pol s G Hpol Hr) as Hinv.
+    pose proof (step_inv c fl pol s (EStop false) G Hpol Hinv) as Hinv1.
+    change (run c fl pol s (EStop false :: ?l)) with (run c fl pol (fst (step c fl pol s (EStop false))) l).
+    revert Hinv1. simpl. rewrite Hidle, Hst.
+    pose proof (gf_sched c G fl) as Hg. unfold good_sched in Hg.
+    repeat (apply andb_true_iff in Hg; let H' := fresh "Hg" in destruct Hg as [Hg H']).
+    rewrite Hg2, Hg1, Hg0. simpl.
+    set (s1 := mkSt (s_tree s) (s_dirty s) (s_fs s) false true None).
+    destruct (begin_cases c fl OFinal false s1 G eq_refl) as [Ht [Hs [Hf Hc]]].
+    destruct Hc as [[sk [dn [_ [Hs' [Hx | Hx]]]]] | [_ [_ [_ [v [Hv [Ho [Hd1 [Ha [_ [_ Hlen]]]]]]]]]]].
+    - intros _. rewrite Hs'. rewrite idle_steps by reflexivity. simpl. repeat split; auto.
+      apply (inv_idle s Hinv); auto.
+    - discriminate.
+    - intros Hinv1. subst s1. simpl in Hlen, Ht, Hs, Hf.
+      assert (Hn : sv_left v (s_tree (fst (begin_save c fl OFinal false (mkSt (s_tree s) (s_dirty s) (s_fs s) false true None)))) = save_len (s_tree s) (is_some (f_main (s_fs s))))
+        by (rewrite Ht; exact Hlen).
+      destruct (quiet_run _ _ v Hinv1 Hv Hd1 Hn) as [fs' [Hrun Hl]].
+      rewrite Hrun. unfold ended. simpl. rewrite Ho. simpl. rewrite Ht in Hl. rewrite Ht, Hs, Ha. auto.
+  Qed.
+
+End Theorems.
